@@ -770,6 +770,14 @@ class AbsEval(PyEval):
             return
         if isinstance(st, (ast.Global, ast.Nonlocal)):
             return
+        if isinstance(st, ast.ImportFrom):
+            # function-local import of a repository module: bind the names
+            target = self.mod._resolve_rel(st.module, st.level)
+            m2 = self.prog.by_dotted.get(target)
+            if m2 is not None:
+                for a in st.names:
+                    self.env[a.asname or a.name] = self.sub(m2, {}).name(a.name)
+            return
         if isinstance(st, ast.Delete):
             return
         try:
